@@ -855,6 +855,27 @@ fn str_variant(cls: &str, cur: &str, var: &str, mat: &Material) -> Option<Value>
 			_ => base[..base.len().saturating_sub(2)].to_string(),
 		},
 		"long" => format!("{}00", base),
+		// forms a lenient hex decoder accepts: same text length, fewer bytes - or the same bytes behind a prefix
+		"lenient_0x" => {
+			if base.len() < 4 {
+				return None;
+			}
+			format!("0x{}", &base[2..])
+		}
+		"lenient_0x0x" => {
+			if base.len() < 6 {
+				return None;
+			}
+			format!("0x0x{}", &base[4..])
+		}
+		"lenient_tail" => {
+			if base.len() < 4 {
+				return None;
+			}
+			format!("{} \t", &base[..base.len() - 2])
+		}
+		"lenient_blank" => " ".repeat(base.len().max(2)),
+		"lenient_prefixed" => format!("0x{}", base),
 		"odd" => base[..base.len().saturating_sub(1)].to_string(),
 		"nonhex" => {
 			let mut v = b.to_vec();
